@@ -43,6 +43,12 @@ def adversarial(rng, prog, opts=None):
         dirs[rng.randrange(2)] = rng.choice(["go-" + names[0], names[1] + ".v1", "v2"])
     elif r < 0.55 and names[0] != names[1]:
         dirs = [names[1], names[0]]           # each lives in a directory called like the other
+    if names[0] == names[1] and rng.random() < 0.5:
+        # two packages of one name: the second (or the first) lives in a directory called name2 — exactly the alias Wire
+        # invents for the second package of that name, so "alias equals last path element" says nothing about the need for it
+        k = rng.randrange(2)
+        dirs = [names[0], names[0]]
+        dirs[k] = names[0] + "2"
     for k, lp in enumerate(["liba", "libb"]):
         prog.pkgmap[lp] = {"dir": "d%d/%s" % (k, dirs[k]), "name": names[k]}
     if rng.random() < 0.5:
